@@ -679,6 +679,25 @@ def register2(M):
         return acc
     E['functools.reduce'] = _reduce
 
+    def _chainmap(interp, args, kw, node):
+        """collections.ChainMap read as a mapping: the first map holding a key wins (modelled as the merged dict; writes through it are not)"""
+        out = {}
+        for m in reversed(args):
+            data = getattr(m, 'dict_data', m)
+            if not isinstance(data, dict):
+                raise AnalysisError('ChainMap over a non-dict mapping', node)
+            out.update(data)
+        return out
+    E['collections.ChainMap'] = _chainmap
+
+    def _counter(interp, args, kw, node):
+        import collections as _c
+        try:
+            return dict(_c.Counter(list(interp.iterate(args[0], node)) if args else []))
+        except TypeError:
+            raise AnalysisError('Counter over unhashable interpreter values', node)
+    E['collections.Counter'] = _counter
+
     class CachedFn:
         """functools.lru_cache / cache: results are kept per argument tuple and handed back as the same object"""
         def __init__(self, fn):
